@@ -135,6 +135,8 @@ func newScratch(tag string) string {
 	return d
 }
 
+var bg = context.Background()
+
 // infraError marks trouble of the harness itself (never a violation).
 type infraError struct{ err error }
 
